@@ -220,6 +220,21 @@ func HarvestVocabulary(root string) int {
 		})
 		return nil
 	})
+	// sizes are often written as products or shifts (64 * 1024, 8 << 20): add the small ones
+	base := make([]int, 0, len(nums))
+	for v := range nums {
+		base = append(base, v)
+	}
+	for _, a := range base {
+		for _, b := range base {
+			if a <= 4096 && b <= 4096 && a*b <= 200000 && a*b >= 256 && (a%8 == 0 || b%8 == 0 || a == 1000 || b == 1000) {
+				nums[a*b] = true
+			}
+			if b <= 20 && a <= 1024 && a<<uint(b) <= 200000 && a<<uint(b) >= 256 {
+				nums[a<<uint(b)] = true
+			}
+		}
+	}
 	VocabNumbers = VocabNumbers[:0]
 	for v := range nums {
 		VocabNumbers = append(VocabNumbers, v)
